@@ -18,7 +18,18 @@ fn names(m: &Beatmap) -> Vec<Vec<String>> {
                 })
                 .collect();
             if let HitObjectKind::Slider(ref s) = h.kind {
-                v.push(format!("nodes={}", s.node_samples.len()));
+                for n in s.node_samples.iter() {
+                    v.push(format!(
+                        "node[{}]",
+                        n.iter()
+                            .map(|s| match &s.name {
+                                HitSampleInfoName::File(f) => format!("File({f:?})"),
+                                HitSampleInfoName::Default(d) => format!("Default({d})"),
+                            })
+                            .collect::<Vec<_>>()
+                            .join(",")
+                    ));
+                }
             }
             v
         })
@@ -53,4 +64,6 @@ fn main() {
     show("mania hold, trailing tab", &format!("{head}100,192,1000,128,0,2000:0:0:0:0:b.wav\t:x\n"));
     show("spinner", &format!("{head0}256,192,1000,12,0,2000,0:0:0:0:c.wav ,x\n"));
     show("slider", &format!("{head0}100,100,1000,2,0,L|200:100,1,100,0|0,0:0|0:0,0:0:0:0:d.wav ,x\n"));
+    // not D30: a file name on a slider NODE (edge-set piece read with banks_only = false)
+    show("slider node with a file name", &format!("{head0}100,100,1000,2,0,L|200:100,1,100,0|0,0:0:0:0:n.wav|0:0,0:0:0:0:\n"));
 }
